@@ -49,6 +49,7 @@ class Check:
         self.t0 = time.time()
         self.obligations = []      # (rule, key, ok, detail)
         self.findings = []         # Finding
+        self.undec = []            # Finding: instances without a verdict
         self.rules = {}            # rule id -> dict(text=..., min=..., n=0)
         self.functions = set()     # functions analysed (qualified names)
         self.files = set()
@@ -115,6 +116,27 @@ class Check:
             self.fail(rid, key, msg, where)
         return cond
 
+    def undecided(self, rid, key, msg, where=''):
+        """The analysis of this instance is too imprecise for a verdict (an
+        unrecognised code shape): never a VIOLATION, never a silent pass - the run
+        ends ANALYSIS-ERROR (exit 2) unless a real violation is reported as well."""
+        r = self.rules[rid]
+        r['n'] += 1
+        self.undec.append(Finding(rid, key, msg, where))
+
+    def decide(self, rid, key, got, want, msg, where='', detail=''):
+        """Verdict from a set of abstract outcomes: holds when it equals `want`;
+        FAILS when the outcomes are all definite; undecided when an outcome
+        mentions an unknown value (TOP)."""
+        if got == want:
+            self.ok(rid, key, detail or str(sorted(map(str, got))))
+            return True
+        if not got or any('TOP' in repr(g) for g in got):
+            self.undecided(rid, key, 'outcome not determined by the abstract interpretation (%s); %s' % (sorted(map(repr, got))[:6], msg), where)
+            return None
+        self.fail(rid, key, msg, where)
+        return False
+
     def analysed(self, fn):
         """Record that a function/class/template was analysed."""
         self.functions.add(getattr(fn, 'fullname', None) or str(fn))
@@ -175,6 +197,12 @@ def finish(chk, level='other'):
         print('VIOLATION property=%s replay=%s' % (chk.prop, replay))
     elif os.path.exists(replay):
         os.remove(replay)
+
+    for f in chk.undec:
+        print('UNDECIDED %s rule=%s instance=%s\n     at %s\n     %s' % (chk.prop, f.rule, f.key, f.where, f.msg))
+    if chk.undec and not violations:
+        raise AnalysisError('%d rule instance(s) could not be decided on this tree (unrecognised code shape): %s'
+                            % (len(chk.undec), ['%s %s' % (f.rule, f.key) for f in chk.undec][:5]))
 
     n_obl = len(chk.obligations)
     n_ok = sum(1 for o in chk.obligations if o[2])
